@@ -7,7 +7,7 @@ PROV_PRESERVING_SUFFIXES = (
     '::deref', '::deref_mut', '::as_ref', '::as_mut', '::as_str', '::as_bytes', '::clone', '::to_owned',
     '::to_string', '::borrow', '::borrow_mut', '::unwrap', '::expect', '::unwrap_or_default', '::into',
     '::from', '::as_slice', '::as_deref', '::as_mut_str', '::unwrap_or', '::unwrap_or_else', '::into_owned',
-    '::as_mut_slice', '::to_vec', '::unwrap_unchecked',
+    '::as_mut_slice', '::to_vec', '::unwrap_unchecked', '::index', '::index_mut', '::into_owned', '::trim', '::trim_end', '::trim_start',
 )
 
 
@@ -289,7 +289,7 @@ class Facts:
         return vals
 
     # ---------- provenance (backward slice inside one body) ----------
-    def trace(self, path, op, depth=0, seen=None):
+    def trace(self, path, op, depth=0, seen=None, deep=False):
         """backward provenance of an operand/place: list of roots:
         ('const', repr, ty, constdict) | ('param', idx, fields) | ('call', callee, bb, fields, calldict) |
         ('agg', kind) | ('binop', op) | ('unop', op) | ('discr',) | ('local', l, fields) | ('other', kind)"""
@@ -318,14 +318,17 @@ class Facts:
             if kind == 'call':
                 cal = callee_of(payload)
                 roots.append(('call', cal, bb, flds, payload))
-                if cal.endswith(PROV_PRESERVING_SUFFIXES) or 'Try>::branch' in cal or cal.endswith('::branch'):
+                if deep:
+                    for a in payload['args']:
+                        roots.extend(self.trace(path, a, depth + 1, seen, deep))
+                elif cal.endswith(PROV_PRESERVING_SUFFIXES) or 'Try>::branch' in cal or cal.endswith('::branch'):
                     for a in payload['args'][:1]:
                         roots.extend(self.trace(path, a, depth + 1, seen))
             else:
                 rv = payload
                 if rv[0] in ('use', 'cast'):
                     o = rv[1] if rv[0] == 'use' else rv[2]
-                    for r in self.trace(path, o, depth + 1, seen):
+                    for r in self.trace(path, o, depth + 1, seen, deep):
                         if r[0] == 'param' and flds:
                             roots.append(('param', r[1], tuple(r[2]) + flds))
                         else:
@@ -335,7 +338,7 @@ class Facts:
                     f2 = tuple(p[3] for p in p2['p'] if p[0] == 'field')
                     if rv[0] == 'discr':
                         roots.append(('discr',))
-                    sub = self.trace(path, {'copy': {'l': p2['l'], 'p': []}}, depth + 1, seen)
+                    sub = self.trace(path, {'copy': {'l': p2['l'], 'p': []}}, depth + 1, seen, deep)
                     for r in sub:
                         if r[0] == 'param':
                             roots.append(('param', r[1], tuple(r[2]) + f2 + flds))
@@ -348,14 +351,14 @@ class Facts:
                 elif rv[0] == 'agg':
                     roots.append(('agg', rv[1]))
                     for o in rv[2]:
-                        roots.extend(self.trace(path, o, depth + 1, seen))
+                        roots.extend(self.trace(path, o, depth + 1, seen, deep))
                 elif rv[0] == 'binop':
                     roots.append(('binop', rv[1]))
-                    roots.extend(self.trace(path, rv[2], depth + 1, seen))
-                    roots.extend(self.trace(path, rv[3], depth + 1, seen))
+                    roots.extend(self.trace(path, rv[2], depth + 1, seen, deep))
+                    roots.extend(self.trace(path, rv[3], depth + 1, seen, deep))
                 elif rv[0] == 'unop':
                     roots.append(('unop', rv[1]))
-                    roots.extend(self.trace(path, rv[2], depth + 1, seen))
+                    roots.extend(self.trace(path, rv[2], depth + 1, seen, deep))
                 else:
                     roots.append(('other', rv[0]))
         # partial writes into the local (field assignments) also feed it
